@@ -83,7 +83,7 @@ func e2eChild() {
 func classify(run *vk.Run, what string, res vk.ChildResult, replay map[string]any) {
 	seen := map[string]bool{}
 	for _, rep := range res.Races {
-		if !rep.InFiles([]string{"galene/token/"}) {
+		if !rep.InFiles([]string{"/token/"}) {
 			run.Count("race_reports_out_of_scope", 1)
 			continue
 		}
@@ -136,21 +136,21 @@ func main() {
 	}
 	run := vk.Start(prop)
 
-	nHist := run.Pick(32, 480)    // library histories
+	nHist := run.Pick(64, 640)    // library histories
 	histSteps := run.Pick(24, 40) // steps each
 	histPer := run.Pick(4, 12)    // histories per child
-	nConc := run.Pick(24, 400)    // concurrent cases
+	nConc := run.Pick(48, 600)    // concurrent cases
 	concPer := run.Pick(6, 20)    // per child
-	nE2E := run.Pick(6, 80)       // e2e children, one history + one http-concurrent scenario each
+	nE2E := run.Pick(10, 120)       // e2e children, one history + one http-concurrent scenario each
 	e2eSteps := run.Pick(30, 50)  //
 	variants := map[string]int{}  // crash-case variants per operation
 	for _, op := range crashOps {
-		variants[op] = run.Pick(2, 20)
+		variants[op] = run.Pick(3, 30)
 	}
-	variants["delete-last"] = run.Pick(1, 6)
-	variants["create-nodir"] = run.Pick(1, 8)
-	variants["create-nofile"] = run.Pick(1, 8)
-	variants["expire-all"] = run.Pick(1, 8)
+	variants["delete-last"] = run.Pick(1, 4)
+	variants["create-nodir"] = run.Pick(2, 10)
+	variants["create-nofile"] = run.Pick(2, 10)
+	variants["expire-all"] = run.Pick(2, 10)
 
 	doHist, doConc, doE2E, doCrash := true, true, true, true
 	histFirst, concFirst, e2eFirst := uint64(0), uint64(0), uint64(0)
@@ -173,6 +173,11 @@ func main() {
 			crashOp, _ = m["op"].(string)
 			crashVar = int(num("variant"))
 		}
+	}
+
+	if only := os.Getenv("VERIF_C16_ONLY"); only != "" { // development aid: run one part
+		doHist, doConc, doE2E, doCrash = only == "hist", only == "conc", only == "e2e", only == "crash"
+		replaying = true
 	}
 
 	sem := make(chan struct{}, 12)
@@ -240,8 +245,8 @@ func main() {
 		run.FloorCounter("http_refused_updates_observed", 1)
 		run.FloorCounter("deletes_acked", 5)
 		run.FloorCounter("order_constraints_checked", 100)
-		run.FloorCounter("crash_points_hit", int64(run.Pick(30, 300)))
-		run.FloorCounter("error_injections_applied", int64(run.Pick(40, 400)))
+		run.FloorCounter("crash_points_hit", int64(run.Pick(60, 600)))
+		run.FloorCounter("error_injections_applied", int64(run.Pick(100, 1000)))
 		run.FloorCounter("crash_left_old", 10)
 		run.FloorCounter("crash_left_new", 1)
 		run.FloorCounter("errors_reported_and_rolled_back", 10)
